@@ -5,7 +5,6 @@ import (
 	"fmt"
 	"math/rand"
 	"reflect"
-	"strconv"
 	"strings"
 	"time"
 
@@ -74,7 +73,7 @@ func parseTimeNs(text string) *string {
 	if err != nil {
 		return nil
 	}
-	s := strconv.FormatInt(t.UnixNano(), 10)
+	s := instantNs(t)
 	return &s
 }
 
@@ -179,7 +178,7 @@ var literalTexts = []string{
 	`""^^type:text`, `"true"^^type:bool`, `"false"^^type:bool`, `"[0 60]"^^type:blob`, `"x"^^type:int64`, `"zeta"^^type:text`, `"k1"^^type:text`,
 }
 var nodeTexts = []string{`/u<a>`, `/u<b>`, `/t<a>`, `/u<ab>`, `/u/x<al>`, `/u<al>`, `/ux<a>`, `/t<ab>`, `/ta<b>`, `/t<x y>`}
-var timeTexts = []string{`2020-01-01T00:00:00Z`, `2020-01-01T00:00:01Z`, `2019-12-31T23:30:00Z`, `2020-01-01T01:00:00+01:00`, `2020-01-01T00:00:00.5Z`, `1999-12-31T23:59:59Z`}
+var timeTexts = []string{`1500-06-01T12:00:00Z`, `9999-12-31T23:59:59Z`, `2020-01-01T00:00:00Z`, `2020-01-01T00:00:01Z`, `2019-12-31T23:30:00Z`, `2020-01-01T01:00:00+01:00`, `2020-01-01T00:00:00.5Z`, `1999-12-31T23:59:59Z`}
 var predTexts = []string{`"p"@[]`, `"q"@[]`, `"knows"@[]`, `"p"@[2020-01-01T00:00:00Z]`}
 
 func tkn(t lexer.TokenType, s string) *lexer.Token { return &lexer.Token{Type: t, Text: s} }
